@@ -8,6 +8,7 @@ def run(ctx):
     ctx.pmap("mzcheck.checks.gencheck", "explore_task", tasks)
     ctx.pmap("mzcheck.checks.gencheck", "sequence_task", gencheck.sequence_tasks(ctx.tier, "C12"), fresh=True)
     ctx.pmap("mzcheck.checks.gencheck", "alias_task", [dict(which="C12")])
+    ctx.pmap("mzcheck.checks.gencheck", "long_walk_task", [dict(which="C12", lengths=[k, k + 1, k + 2]) for k in ((1000, 6000, 30000) if ctx.quick else (1000, 6000, 30000, 100000, 300000))])
     finish(ctx, tasks)
     ctx.coverage["random_path_executions"] = ctx.res.counters.get("random_path_executions", 0)
 
